@@ -564,7 +564,20 @@ class Interp:
         return tuple(self.eval_seq(node.elts, frame))
 
     def ex_List(self, node, frame):
-        return list(self.eval_seq(node.elts, frame))
+        # [a, *xs] where xs has symbolic-length segments stays a generic list
+        from .models.glist import GList
+        pieces, generic = [], False
+        for e in node.elts:
+            if isinstance(e, ast.Starred):
+                v = self.eval(e.value, frame)
+                if isinstance(v, GList):
+                    generic = True
+                    pieces.extend(v.pieces)
+                else:
+                    pieces.extend(self.iterate(v))
+            else:
+                pieces.append(self.eval(e, frame))
+        return GList(pieces) if generic else pieces
 
     def ex_Set(self, node, frame):
         return ops.PySet(self.eval_seq(node.elts, frame))
